@@ -1,4 +1,5 @@
 """C10 — lawful total orders: comparator-law lints over Ord / PartialEq / Hash / cypher_order of PropertyValue."""
+from ..cfg import Body
 from ..report import where
 
 LEVEL = "other"
@@ -27,6 +28,53 @@ def run(ctx, F, cg):
     ctx.rule("L3", "the tuple match of Ord::cmp has an explicit (V, V) arm for every variant, and explicit cross arms exactly for variants that share a bucket")
     ctx.rule("L4", "Hash::hash matches every variant without wildcard and gives each a distinct tag")
     ctx.rule("L5", "cypher_order::rank is exhaustive without wildcard and same-rank pairs fall through to Ord")
+    ctx.rule("L6", "no comparator consults `==` on PropertyValue: while PartialEq is derived (IEEE ==, rule L1) it is a different relation from cmp (0.0 == -0.0, NaN != NaN), so a shortcut `if a == b { Equal }` ties values the rest of the comparator orders strictly and breaks transitivity")
+    comps = [r for p_, r in F.fns.items() if (p_.startswith("samyama::graph::property::cypher_order") or (r.get("self") == PV and r.get("trait") and r["trait"].rsplit("::", 1)[-1] in ("Ord", "PartialOrd"))) and "::tests::" not in p_]
+    ctx.floor("L6", "comparator bodies (cypher_order and helpers, Ord, PartialOrd)", len(comps), 3)
+    nbad = 0
+    for r in comps:
+        m_ = F.mir(r["path"])
+        if not m_:
+            continue
+        bb_ = Body(m_, r)
+        ctx.saw_fn(r["path"])
+        for c in bb_.calls():
+            if c.path.rsplit("::", 1)[-1] in ("eq", "ne") and "PartialEq" in c.path:
+                tys = [bb_.local_ty(a[1][0]) for a in c.args[:2] if a[0] != "k"]
+                if any("property::PropertyValue" in t for t in tys):
+                    nbad += 1
+                    ctx.violation("L6", "%s|uses-derived-eq" % r["path"].replace("samyama::graph::property::", ""), where(r, c.line),
+                                  "%s tests `==` on %s: Float(0.0) == Float(-0.0) ties here while the comparator orders -0.0 < Integer(0) < 0.0 — not transitive (and NaN never takes the shortcut)" % (r["path"].rsplit("::", 2)[-1], tys[0]))
+    if not nbad:
+        ctx.ok("L6", "comparators-do-not-use-derived-eq", "%d comparator bodies, none calls PartialEq on PropertyValue" % len(comps))
+    ctx.rule("L7", "cypher_order decides NaN's place before it delegates to the index order: every call of <PropertyValue as Ord>::cmp in it is dominated by a NaN test of each argument (the index order sorts a negative NaN below every number, ORDER BY sorts every NaN above them)")
+    co = F.fn_opt("graph::property::cypher_order")
+    if co is None:
+        ctx.anchor_failure("L7", "graph::property::cypher_order")
+    else:
+        cb_ = Body(F.mir(co["path"]), co)
+        ctx.saw_fn(co["path"])
+        def _tests_nan(path):
+            r_ = F.fns.get(path)
+            return bool(r_) and any(c.endswith("::is_nan") for c in r_["calls"])
+        nan_calls = [c for c in cb_.calls() if c.path.endswith("::is_nan") or _tests_nan(c.path)]
+        dele = [c for c in cb_.calls() if c.path.endswith("cmp::Ord>::cmp") and "property::PropertyValue as" in c.path]
+        ctx.floor("L7", "delegations to the index order in cypher_order", len(dele), 1)
+        for k_, d_ in enumerate(dele):
+            # NaN tests that dominate the delegation, by which parameter they look at
+            seen_params = set()
+            for c in nan_calls:
+                if c.bb != d_.bb and cb_.dominates(c.bb, d_.bb):
+                    for a in c.args:
+                        if a[0] != "k":
+                            for o in cb_.origins(a[1][0]):
+                                if o[0] == "arg":
+                                    seen_params.add(o[1])
+            if {1, 2} <= seen_params:
+                ctx.ok("L7", "cypher_order|delegation|%d" % k_, "NaN tests of both arguments dominate the delegation to Ord::cmp")
+            else:
+                ctx.violation("L7", "cypher_order|delegation|%d|nan-not-decided" % k_, where(co, d_.line),
+                              "cypher_order hands the pair to Ord::cmp without first testing both values for NaN on every path (NaN is decided only inside a (Float, Float) arm): Integer vs Float(-NaN) is then ordered by total_cmp, giving 1.0 < -NaN < 0 < 1.0")
     adt = F.adt("graph::property::PropertyValue")
     variants = [v["name"] for v in adt["variants"]]
     has_float = any(f[1] in ("f64", "f32") or "f32" in f[1] or "f64" in f[1] for v in adt["variants"] for f in v["fields"])
